@@ -98,7 +98,11 @@ func (e *Engine) vapi(g *Goroutine, name string, args []Value, fn *ssa.Function)
 		e.recordViolation("check", label, e.siteOf(g.top), "reached Fail", nil)
 		e.abort("violation", label)
 	case "Reach":
-		e.p.reach = append(e.p.reach, e.mustGoString(args[0], "reach label"))
+		lbl := e.mustGoString(args[0], "reach label")
+		e.p.reach = append(e.p.reach, lbl)
+		if e.cfg.SelfCheck {
+			e.recordViolation("check", "selfcheck:"+lbl, e.siteOf(g.top), "selfcheck twin: reach point is reachable", nil)
+		}
 		return nil, true
 	case "Choice":
 		nm := e.mustGoString(args[0], "choice name")
